@@ -196,6 +196,7 @@ type Knobs struct {
 
 type Plan struct {
 	Prop       string      `json:"prop"`
+	Tier       string      `json:"tier,omitempty"`
 	Seed       uint64      `json:"seed"`
 	Knobs      Knobs       `json:"knobs"`
 	Stmts      []Stmt      `json:"stmts"`
